@@ -3,6 +3,9 @@ package main
 import (
 	"fmt"
 
+	"github.com/casbin/casbin/v2"
+	"github.com/casbin/casbin/v2/util"
+
 	"verif/harness/internal/proto"
 )
 
@@ -138,5 +141,76 @@ func rbacApiFamily(c *Ctx, tag string) {
 	randomHistories(c, &HistCfg{Name: tag + "rbac-api-random", MS: rbacSpec(false, false), Opts: CaseOpts{Adapter: true}, Alphabet: alpha, Probes: probes, Setup: setup}, n, 4, 25)
 	randomHistories(c, &HistCfg{Name: tag + "rbac-api-domains-random", MS: rbacSpec(true, false), Opts: CaseOpts{Adapter: true}, Alphabet: alphaD, Probes: probesD, Setup: setupD}, n, 4, 25)
 	c.Count("rbac_api_alphabet", len(alpha)+len(alphaD))
+	if tag == "" {
+		rbacApiPatternDomains(c)
+	}
 	_ = fmt.Sprint
+}
+
+// The convenience layer on a domain model WITH a domain matching function (links in the pattern domain "*" hold in
+// every domain): after every call the live role graph answers like an enforcer built afresh from the listed rules
+// (HasLink over names x names x domains).  The pool never holds the same (user, role) pair in "*" and in a concrete
+// domain (that is finding D15).  Implementation only.
+func rbacApiPatternDomains(c *Ctx) {
+	names := []string{"alice", "bob", "admin", "editor", "staff"}
+	doms := []string{"d1", "d2", "d3"}
+	build := func(rules [][]string) *casbin.Enforcer {
+		e, err := casbin.NewEnforcer(rbacSpec(true, false).Build())
+		if err != nil {
+			panic(err)
+		}
+		e.AddNamedDomainMatchingFunc("g", "keyMatch", util.KeyMatch)
+		for _, r := range rules {
+			_, _ = e.AddGroupingPolicy(append([]string(nil), r...))
+		}
+		return e
+	}
+	type call struct {
+		name string
+		run  func(e *casbin.Enforcer)
+	}
+	calls := []call{
+		{"AddRoleForUser(alice, admin, *)", func(e *casbin.Enforcer) { _, _ = e.AddRoleForUser("alice", "admin", "*") }},
+		{"AddRoleForUserInDomain(alice, editor, d1)", func(e *casbin.Enforcer) { _, _ = e.AddRoleForUserInDomain("alice", "editor", "d1") }},
+		{"AddRoleForUserInDomain(bob, staff, d2)", func(e *casbin.Enforcer) { _, _ = e.AddRoleForUserInDomain("bob", "staff", "d2") }},
+		{"AddRoleForUser(editor, staff, *)", func(e *casbin.Enforcer) { _, _ = e.AddRoleForUser("editor", "staff", "*") }},
+		{"AddRolesForUser(bob, [editor], d1)", func(e *casbin.Enforcer) { _, _ = e.AddRolesForUser("bob", []string{"editor"}, "d1") }},
+		{"DeleteRolesForUser(alice, d1)", func(e *casbin.Enforcer) { _, _ = e.DeleteRolesForUser("alice", "d1") }},
+		{"DeleteRolesForUser(bob, d2)", func(e *casbin.Enforcer) { _, _ = e.DeleteRolesForUser("bob", "d2") }},
+		{"DeleteRoleForUserInDomain(alice, editor, d1)", func(e *casbin.Enforcer) { _, _ = e.DeleteRoleForUserInDomain("alice", "editor", "d1") }},
+		{"DeleteRoleForUser(alice, admin, *)", func(e *casbin.Enforcer) { _, _ = e.DeleteRoleForUser("alice", "admin", "*") }},
+		{"DeleteRolesForUserInDomain(bob, d1)", func(e *casbin.Enforcer) { _, _ = e.DeleteRolesForUserInDomain("bob", "d1") }},
+		{"DeleteAllUsersByDomain(d2)", func(e *casbin.Enforcer) { _, _ = e.DeleteAllUsersByDomain("d2") }},
+		{"DeleteUser(bob)", func(e *casbin.Enforcer) { _, _ = e.DeleteUser("bob") }},
+	}
+	n := 150
+	if c.Thorough() {
+		n = 4000
+	}
+	for i := 0; i < n; i++ {
+		e := build(nil)
+		var hist []string
+		steps := 2 + c.Rng.Intn(7)
+		for s := 0; s < steps; s++ {
+			cl := calls[c.Rng.Intn(len(calls))]
+			cl.run(e)
+			hist = append(hist, cl.name)
+			listed, _ := e.GetGroupingPolicy()
+			f := build(listed)
+			for _, d := range doms {
+				for _, u := range names {
+					for _, r := range names {
+						live, _ := e.GetRoleManager().HasLink(u, r, d)
+						fresh, _ := f.GetRoleManager().HasLink(u, r, d)
+						if live != fresh {
+							c.Direct("after a convenience call under a domain matching function the role graph does not mirror the listed grouping rules", fmt.Sprintf("%v listed=%v HasLink(%s, %s, %s) live=%v rebuilt-from-listed=%v", hist, listed, u, r, d, live, fresh))
+							return
+						}
+					}
+				}
+			}
+			c.Evals++
+		}
+		c.Count("rbac_api_pattern_domain_runs", 1)
+	}
 }
